@@ -255,6 +255,8 @@ class AbstractDateTime(AnyAtomicType):
         return self._operation(other, operator.sub)
 
     def _compare(self, other: object, op: Callable[[Any, Any], bool]) -> bool:
+        if isinstance(other, UntypedAtomic):
+            other = type(self).fromstring(other.value)
         if isinstance(other, datetime.datetime):
             dt, year = other, other.year
         elif isinstance(other, AbstractDateTime):
@@ -1123,6 +1125,8 @@ class Duration(AnyAtomicType):
 
         Ref: https://www.w3.org/TR/2012/REC-xmlschema11-2-20120405/#duration
         """
+        if isinstance(other, UntypedAtomic):
+            other = self.fromstring(other.value)
         if not isinstance(other, self.__class__):
             raise TypeError("wrong type %r for operand %r" % (type(other), other))
 
